@@ -18,13 +18,14 @@ ELEMS = [("u8", G.U8), ("i16", G.I16), ("u32", G.U32), ("u24", G.U24), ("i48", G
          ("ptr", ["ptr", G.U8]), ("inner", G.INNER), ("u8[2]", G.arr(G.U8, 2))]
 CNT_FIELD = ["expr", ["bin", "-", ["bin", "&", ["id", "n"], ["num", 3]], ["num", 1]]]      # (n & 3) - 1 in [-1, 2]
 CNT_CONST = ["expr", ["bin", "+", ["id", "K1"], ["num", 1]]]                                   # constant fold: 2
+CNT_NEG = ["expr", ["bin", "-", ["id", "K1"], ["num", 3]]]                                     # constant fold: -2 -> no elements
 CNT_MIXED = ["expr", ["bin", "*", ["bin", "&", ["id", "n"], ["id", "K1"]], ["num", 2]]]         # (n & K1) * 2 in {0, 2}
 
 
 def gen(tier):
     for ename, ET in ELEMS:
         zero_ok = ET[0] not in ("float", "ptr", "arr") or ET[0] == "ptr"
-        for fname, cnt in (("0", 0), ("1", 1), ("2", 2), ("3", 3), ("field", CNT_FIELD), ("const", CNT_CONST), ("mixed", CNT_MIXED),
+        for fname, cnt in (("0", 0), ("1", 1), ("2", 2), ("3", 3), ("field", CNT_FIELD), ("const", CNT_CONST), ("mixed", CNT_MIXED), ("negconst", CNT_NEG),
                            ("nul", None), ("EOF", "EOF")):
             if cnt is None and ET[0] in ("float", "arr", "ptr"):
                 continue  # zero-terminated arrays are claimed for integer, char, wchar, enum, LEB128 and all-integer structures
@@ -48,6 +49,9 @@ def gen(tier):
     inner_cnt = ["expr", ["bin", "+", ["bin", "&", ["id", "n"], ["num", 1]], ["num", 1]]]
     for ename, ET in (("u8", G.U8), ("i16", G.I16), ("char", G.CHAR), ("u24", G.U24)):
         yield f"{ename}[EOF][field]", ["struct", "test", [["n", G.U8, None], ["d", G.arr(G.arr(ET, inner_cnt), "EOF"), None]], False]
+    # the count names a field of an anonymous structure member parsed before the array (such fields are fields of the parent)
+    yield "anon-count", ["struct", "test", [[None, ["struct", "", [["n", G.U8, None], ["m", G.U8, None]], True], None],
+                                             ["d", G.arr(G.U8, ["expr", ["bin", "&", ["id", "n"], ["num", 3]]]), None], ["t", G.U8, None]], False]
     yield "late-const", ["struct", "test", [["n", G.U8, None], ["d", G.arr(G.U8, ["expr", ["bin", "&", ["id", "n"], ["num", 3]]]), None], ["t", G.U8, None]], False]
     yield "two-arrays", ["struct", "test", [["n", G.U8, None], ["m", G.U8, None], ["a", G.arr(G.U16, ["expr", ["bin", "&", ["id", "n"], ["num", 1]]]), None],
                                              ["b", G.arr(G.CHAR, ["expr", ["bin", "+", ["bin", "&", ["id", "m"], ["num", 1]], ["bin", "&", ["id", "n"], ["num", 1]]]]), None],
@@ -209,7 +213,7 @@ def cases(tier, seed):
                 n = 1 + (4 if forks > 1 else 6) * es + (1 if forks > 1 else 2)
             yield {"label": label, "T": T, "cfg": cfg, "nbytes": n}
     for ename, ET in ELEMS:
-        if ET[0] in ("leb", "float", "arr"):
+        if ET[0] in ("float", "arr"):
             continue
         for cnt in (1, 2):
             for cfg in families.PAIRWISE:
